@@ -24,7 +24,6 @@ fn duke_read(bytes: &[u8]) -> Result<Result<duke::tree::class::ClassFile, ()>, S
 			PANIC_AT.with(|p| *p.borrow_mut() = stem);
 		}));
 	});
-	if c01parse::dynamic_cycle(bytes) { return Err("stack".into()); } // duke would recurse until the stack is exhausted (abort)
 	match catch_unwind(AssertUnwindSafe(|| duke::read_class(&mut Cursor::new(bytes)))) {
 		Ok(Ok(c)) => Ok(Ok(c)),
 		Ok(Err(_)) => Ok(Err(())),
@@ -83,6 +82,61 @@ fn cldc_class(entries: &[(u16, Vec<(u8, u16)>, Vec<(u8, u16)>)], with_lines: boo
 	code.extend((attrs.len() as u16).to_be_bytes());
 	for (n, a) in attrs { code.extend(n.to_be_bytes()); code.extend((a.len() as u32).to_be_bytes()); code.extend(a); }
 	b.extend([0, 5]); b.extend((code.len() as u32).to_be_bytes()); b.extend(code);
+	b.extend([0, 0]);
+	b
+}
+
+/// hand-assembled class whose method loads (`via_indy = false`: `ldc_w`) or calls (`invokedynamic`) a constant whose bootstrap
+/// arguments form a chain of `k` nested `Dynamic` constants; `cyclic`: the last one takes the first one as its argument.
+/// The reader resolves bootstrap arguments up to MAX_BOOTSTRAP_ARGUMENT_DEPTH = 16 levels (duke cb2ce34), deeper is an error.
+fn dyn_chain_class(k: usize, cyclic: bool, via_indy: bool) -> Vec<u8> {
+	let mut b: Vec<u8> = vec![0xca, 0xfe, 0xba, 0xbe, 0, 0, 0, 55];
+	let utf8 = |b: &mut Vec<u8>, s: &str| { b.push(1); b.extend((s.len() as u16).to_be_bytes()); b.extend(s.as_bytes()); };
+	let first_dyn = 15u16;                                        // pool index of the first Dynamic
+	b.extend((first_dyn + k as u16 + 1).to_be_bytes());           // constant_pool_count
+	utf8(&mut b, "A"); b.extend([7, 0, 1]);                       // 1, 2
+	for s in ["m", "()V", "Code", "BootstrapMethods", "x", "I", "b"] { utf8(&mut b, s); } // 3..=9
+	b.extend([12, 0, 7, 0, 8]);                                   // 10 NameAndType x:I
+	b.extend([12, 0, 9, 0, 4]);                                   // 11 NameAndType b:()V
+	b.extend([10, 0, 2, 0, 11]);                                  // 12 Methodref A.b:()V
+	b.extend([15, 6, 0, 12]);                                     // 13 MethodHandle invokestatic #12
+	b.extend([18, 0, 0, 0, 10]);                                  // 14 InvokeDynamic bsm 0, x:I
+	for j in 0..k { b.push(17); b.extend((j as u16 + 1).to_be_bytes()); b.extend([0, 10]); } // 15.. Dynamic bsm j+1, x:I
+	b.extend([0, 0x21, 0, 2, 0, 0, 0, 0, 0, 0]);
+	b.extend([0, 1, 0, 9, 0, 3, 0, 4, 0, 1]);
+	let mut code: Vec<u8> = vec![0, 1, 0, 1];
+	if via_indy { code.extend([0, 0, 0, 6, 0xba, 0, 14, 0, 0, 0xb1]); } else { code.extend([0, 0, 0, 4, 0x13]); code.extend(first_dyn.to_be_bytes()); code.push(0xb1); }
+	code.extend([0, 0, 0, 0]);
+	b.extend([0, 5]); b.extend((code.len() as u32).to_be_bytes()); b.extend(code);
+	// BootstrapMethods: entry 0 (of the InvokeDynamic) takes the first Dynamic, entry j+1 (of Dynamic j) the next one
+	let mut t: Vec<u8> = ((k + 1) as u16).to_be_bytes().to_vec();
+	t.extend([0, 13]); if k > 0 { t.extend([0, 1]); t.extend(first_dyn.to_be_bytes()); } else { t.extend([0, 0]); }
+	for j in 0..k {
+		t.extend([0, 13]);
+		if j + 1 < k { t.extend([0, 1]); t.extend((first_dyn + j as u16 + 1).to_be_bytes()); }
+		else if cyclic { t.extend([0, 1]); t.extend(first_dyn.to_be_bytes()); }
+		else { t.extend([0, 0]); }
+	}
+	b.extend([0, 1, 0, 6]); b.extend((t.len() as u32).to_be_bytes()); b.extend(t);
+	b
+}
+
+/// hand-assembled class whose method carries a `RuntimeVisibleAnnotations` (`default = false`) or `AnnotationDefault` attribute
+/// with an element value nested `k` levels (`arrays`: `[[..]]`, else `@A(v=@A(v=..))`) around `inner` (an empty array when
+/// `None`, else the string constant "v").  The reader admits MAX_ELEMENT_VALUE_DEPTH = 255 levels (duke 835fdd2).
+fn deep_anno_class(k: usize, arrays: bool, default: bool, empty_array_inside: bool) -> Vec<u8> {
+	let mut b: Vec<u8> = vec![0xca, 0xfe, 0xba, 0xbe, 0, 0, 0, 52];
+	let utf8 = |b: &mut Vec<u8>, s: &str| { b.push(1); b.extend((s.len() as u16).to_be_bytes()); b.extend(s.as_bytes()); };
+	b.extend(9u16.to_be_bytes());
+	utf8(&mut b, "A"); b.extend([7, 0, 1]);
+	for s in ["m", "()V", "RuntimeVisibleAnnotations", "AnnotationDefault", "LA;", "v"] { utf8(&mut b, s); } // 3..=8
+	b.extend([0, 0x21, 0, 2, 0, 0, 0, 0, 0, 0]);
+	b.extend([0, 1, 0x04, 0x01, 0, 3, 0, 4, 0, 1]);                // abstract method, 1 attribute
+	let mut v: Vec<u8> = Vec::new();
+	for _ in 0..k { if arrays { v.extend([b'[', 0, 1]); } else { v.extend([b'@', 0, 7, 0, 1, 0, 8]); } }
+	if empty_array_inside { v.extend([b'[', 0, 0]); } else { v.extend([b's', 0, 8]); }
+	let body: Vec<u8> = if default { v } else { let mut a = vec![0, 1, 0, 7, 0, 1, 0, 8]; a.extend(v); a };
+	b.extend(if default { [0, 6] } else { [0, 5] }); b.extend((body.len() as u32).to_be_bytes()); b.extend(body);
 	b.extend([0, 0]);
 	b
 }
@@ -253,7 +307,24 @@ fn gen(r: &mut Rng, tier: Tier, out: &mut Out) {
 		out.stats.hit("directed:cldc-stackmap");
 		out.op("read", &[Sexp::bytes(&cldc_class(&entries, i % 2 == 0))]);
 	}
-	// directed malformed cases: overflowing local-variable range (panic site), bad magic, version 67.1, empty input
+	// ---- 5e. the reader's deliberate nesting limits: bootstrap arguments (16 levels), element values (255 levels)
+	for via_indy in [false, true] {
+		for k in [0usize, 1, 2, 15, 16, 17, 18, 19, 40] {
+			if k == 0 && !via_indy { continue; }
+			out.stats.hit("directed:dynamic-depth");
+			out.op("read", &[Sexp::bytes(&dyn_chain_class(k, false, via_indy))]);
+			out.op("oracle-read-parse", &[Sexp::bytes(&dyn_chain_class(k, false, via_indy))]);
+		}
+		for k in [1usize, 2, 5] { out.stats.hit("directed:dynamic-cycle"); out.op("read", &[Sexp::bytes(&dyn_chain_class(k, true, via_indy))]); }
+	}
+	for arrays in [false, true] { for default in [false, true] { for empty in [false, true] {
+		for k in [0usize, 1, 2, 253, 254, 255, 256, 257, 300] {
+			out.stats.hit("directed:element-value-depth");
+			out.op("read", &[Sexp::bytes(&deep_anno_class(k, arrays, default, empty))]);
+			out.op("oracle-read-parse", &[Sexp::bytes(&deep_anno_class(k, arrays, default, empty))]);
+		}
+	} } }
+	// directed malformed cases: overflowing local-variable range (an error since e3534dd), bad magic, version 67.1, empty input
 	out.op("read", &[Sexp::bytes(&[])]);
 	out.op("read", &[Sexp::bytes(&[0xca, 0xfe, 0xba, 0xbe, 0, 1, 0, 67, 0, 1, 0, 0, 0, 0, 0, 0, 0, 0, 0, 0, 0, 0, 0, 0])]);
 	{
